@@ -296,6 +296,7 @@ class MonoTimer(object):
         """ Restarts timer at stop so no time lost
 
         """
+        self.update()  # apply any retrograde shift before reading .stop
         return self.restart(start=self.stop)
 
     def extend(self, extension=None):
@@ -312,6 +313,7 @@ class MonoTimer(object):
 
         duration = self.duration + extension
 
+        self.update()  # apply any retrograde shift before reading .start
         return self.restart(start=self.start, duration=duration)
 
 class StoreTimer(object):
